@@ -2,7 +2,7 @@
 from ..core import quiet_stderr
 from . import chan_common as cc
 
-PREFIXES = ("C11-", "C05-final-file-changed", "final-file-set", "C08-bounds", "C01-read-", "C01-stored-values")
+PREFIXES = ("C11-", "C05-final-file-changed", "final-file-set", "C08-bounds", "C01-read-", "C01-stored-values", "C01-valid-write-refused")
 
 WHAT = ("2-4 sessions per channel with starts later than, earlier than and inside recorded periods, in 1-2 top-level directories whose "
         "recorded periods interleave (one directory holds the first and last third, the other the middle); single-parameter mismatches "
